@@ -22,10 +22,11 @@ const (
 	sRetryAfter // first do returns Retry{After: 1h}
 	sWaitDone   // first do returns Wait{} (waited status Done)
 	sAt         // task is scheduled At(now+1h) at creation
+	sUndoWait   // do ok; first undo returns Wait{WaitedStatus: Undone} (undo needs a reboot)
 )
 
 var scriptNames = map[script]string{sOK: "ok", sFailDo: "fail-do", sFailUndo: "fail-undo", sNoUndo: "no-undo", sRetryOnce: "retry-once",
-	sRetryAfter: "retry-after-1h", sWaitDone: "wait-then-done", sAt: "at-1h"}
+	sRetryAfter: "retry-after-1h", sWaitDone: "wait-then-done", sAt: "at-1h", sUndoWait: "undo-waits"}
 
 func (s script) String() string { return scriptNames[s] }
 
@@ -255,6 +256,10 @@ func (w *world) result(i int, phase string, tb *tomb.Tomb) error {
 	if phase == "undo" {
 		if sc == sFailUndo {
 			return fmt.Errorf("undo-boom-%d", i)
+		}
+		if sc == sUndoWait && w.retries[i] == 0 {
+			w.retries[i]++
+			return &Wait{Reason: "verif-undo", WaitedStatus: UndoneStatus}
 		}
 		return nil
 	}
